@@ -87,7 +87,7 @@ def transform(case):
     raise Violation('documented-invalid (length, block size) combination returned a value instead of ValueError',
                     'ValueError', np.asarray(out)[:8].tolist())
   evals = 0
-  if n <= 64:
+  if n <= case.get('full_matrix_upto', 64):
     h = sylvester(n)
     for j in range(n):
       e = np.zeros(n)
@@ -194,7 +194,46 @@ def rotation_pytree(case):
   return {'evals': evals, 'nontrivial': True, 'outcome': case['tree']}
 
 
-SUBS = {'transform': transform, 'rotation': rotation, 'rotation_pytree': rotation_pytree}
+def rotation_pytree_sequence(case):
+  """History through the pytree functions in one process: trees that share a container structure but not their leaf
+  shapes, and trees whose differently shaped leaves pad to the same power of two - each must round-trip on its own."""
+  import jax
+  import jax.numpy as jnp
+  from fedjax.aggregators import walsh_hadamard as wh
+  seqs = {
+      'same_structure': [{'w': (3, 4), 'b': (4,)}, {'w': (4, 3), 'b': (3,)}, {'w': (2, 2), 'b': (5,)}, {'w': (3, 4), 'b': (4,)}],
+      'bare_arrays': [(2, 3), (3, 2), (7,), ()],
+      'lists': [[(3,), (5,)], [(5,), (3,)], [(1,), (8,)]],
+      'pad_collisions': [{'a': (3,), 'b': (5,), 'c': (4,)}, {'a': (2, 3), 'b': (2, 2), 'c': (7,)},
+                         {'l0': {'w': (5, 7), 'b': (7,)}, 'l1': {'w': (7, 8), 'b': (8,)}, 'l2': {'w': (8, 3), 'b': (3,)}}],
+  }
+  evals = 0
+  is_shape = lambda x: isinstance(x, tuple) and all(isinstance(i, int) for i in x)
+  for step, spec in enumerate(seqs[case['seq']]):
+    cnt = [0]
+
+    def mk(shape):
+      cnt[0] += 1
+      n = int(np.prod(shape)) if shape else 1
+      return jnp.asarray((np.arange(n, dtype=np.float32) * 0.5 - 1.25 + cnt[0] + step).reshape(shape))
+    tree = jax.tree_util.tree_map(mk, spec, is_leaf=is_shape)
+    for k in case['keys']:
+      nc = dict(case, step=step, key=k)
+      key = jax.random.PRNGKey(k)
+      rot, shapes = wh.structured_rotation_pytree(tree, key)
+      back = wh.inverse_structured_rotation_pytree(rot, key, shapes)
+      for l, r, b in zip(jax.tree_util.tree_leaves(tree), jax.tree_util.tree_leaves(rot), jax.tree_util.tree_leaves(back)):
+        nl, nr = float(jnp.linalg.norm(l.reshape(-1))), float(jnp.linalg.norm(r))
+        require(abs(nl - nr) <= 1e-5 * max(1.0, nl), 'step %d: a leaf\'s norm is not preserved' % step, nl, nr, case=nc)
+        require(np.asarray(b).shape == np.asarray(l).shape, 'step %d: a leaf is not restored in its original shape' % step,
+                list(np.asarray(l).shape), list(np.asarray(b).shape), case=nc)
+        require(bool(np.allclose(np.asarray(b), np.asarray(l), atol=5e-5)), 'step %d: a leaf is not restored by the inverse '
+                'rotation with the same key' % step, np.asarray(l).tolist(), np.asarray(b).tolist(), case=nc)
+      evals += 1
+  return {'evals': evals, 'nontrivial': True, 'outcome': case['seq']}
+
+
+SUBS = {'rotation_pytree_sequence': rotation_pytree_sequence, 'transform': transform, 'rotation': rotation, 'rotation_pytree': rotation_pytree}
 TIMEOUTS = {k: 900 for k in SUBS}
 
 
@@ -210,9 +249,12 @@ def plan(ctx):
                       'jax.random.rademacher is trusted (the same key is drawn for the reference rotation)']
   exps = range(0, 15) if th else [0, 1, 2, 3, 4, 6, 7, 8, 10, 14]
   blocks = [None] + [2 ** b for b in (range(1, 9) if th else [1, 2, 3, 7, 8])]
-  tc = [{'n': 2 ** e, 'small_n': b, 'seed': ctx.seed, 'positional': e == 3} for e in exps for b in blocks]
+  tc = [{'n': 2 ** e, 'small_n': b, 'seed': ctx.seed, 'positional': e == 3, 'full_matrix_upto': 256 if th else 64}
+        for e in exps for b in blocks]
   ctx.pmap('transform', tc, chunk=4)
   shapes = [(), (1,), (2,), (3,), (5,), (8,), (17,), (2, 3), (3, 1, 2), (1000,)] + ([(4, 4, 4), (1, 1), (129,)] if th else [])
-  ctx.pmap('rotation', [{'shape': list(s), 'keys': list(range(8)), 'seed': ctx.seed} for s in shapes], chunk=1)
+  ctx.pmap('rotation', [{'shape': list(s), 'keys': list(range(32 if th else 8)), 'seed': ctx.seed} for s in shapes], chunk=1)
+  ctx.pmap('rotation_pytree_sequence', [{'seq': q, 'keys': [0, 1, 2] if not th else list(range(8))}
+                                        for q in ('same_structure', 'bare_arrays', 'lists', 'pad_collisions')], chunk=1)
   ctx.pmap('rotation_pytree', [{'tree': t, 'keys': [0, 1, 2] if not th else list(range(6)), 'seed': ctx.seed}
                                for t in ('scalar', 'vec', 'mat_scalar', 'nested', 'int')], chunk=1)
